@@ -1082,13 +1082,32 @@ func main() {
 	samples := fw.NewSampler(12)
 	var states, trans, obs int64
 	bounds := map[string]any{}
-	for _, kind := range []string{"module", "fs", "runtime"} {
+	// thorough: the fs tree is explored twice, to depth 5 without the two unmount operations and to depth 4 with
+	// them (with them the depth-5 tree no longer fits the budget); quick explores depth 3 with all operations.
+	passes := []string{"module", "fs", "runtime"}
+	if run.Thorough() {
+		passes = []string{"module", "fs", "fs+unmount", "runtime"}
+	}
+	for _, label := range passes {
+		kind := strings.TrimSuffix(label, "+unmount")
 		e := &explorer{run: run, kind: kind, depth: depths[kind], observeLeaves: true, outcomes: outcomes, samples: samples}
 		switch kind {
 		case "module":
 			e.ops = mcOps()
 		case "fs":
 			e.ops = fsOps()
+			if run.Thorough() && label == "fs" { // depth 5: without WithFSMount(nil, ...)
+				var keep []op
+				for _, o := range e.ops {
+					if !strings.HasPrefix(o.name, "WithFSMount(nil,") {
+						keep = append(keep, o)
+					}
+				}
+				e.ops = keep
+			}
+			if label == "fs+unmount" {
+				e.depth = 4
+			}
 		case "runtime":
 			e.ops = rcOps()
 		}
@@ -1098,12 +1117,14 @@ func main() {
 		if run.Thorough() {
 			combK = 17
 		}
-		e.exploreCombs(hostA, hostB, combK)
+		if label != "fs+unmount" {
+			e.exploreCombs(hostA, hostB, combK)
+		}
 		states += e.states.Load()
 		trans += e.trans.Load()
 		obs += e.obs.Load()
-		bounds[kind] = map[string]any{"alphabet": len(e.ops), "depth": e.depth, "states": e.states.Load(), "transitions": e.trans.Load(), "wall_s": time.Since(t0).Seconds()}
-		outcomes.AddN("explored:"+kind, e.trans.Load())
+		bounds[label] = map[string]any{"alphabet": len(e.ops), "depth": e.depth, "states": e.states.Load(), "transitions": e.trans.Load(), "wall_s": time.Since(t0).Seconds()}
+		outcomes.AddN("explored:"+label, e.trans.Load())
 	}
 	sockN := 7
 	if run.Thorough() {
